@@ -412,7 +412,10 @@ CHECKS = {
     'C01': dict(level='model_checking', invariants=INV['C01'], jobs=lambda t, s: jobs_c01(t, s) + replay_jobs(t), mc=design_mc(MCINV['C01']),
                 assumptions=['in-memory API server model (spec/Store.tla semantics, harness/sim/store.go)',
                              'third party acts between reconciles (pass-atomic schedules) as the statement quantifies']),
-    'C02': dict(level='model_checking', invariants=INV['C02'], assumptions=ASSUME, mc=lambda tier: design_mc(MCINV['C02'])(tier) + race_mc(tier), jobs=sched_jobs([
+    'C02': dict(level='model_checking', invariants=INV['C02'], assumptions=ASSUME, mc=lambda tier: design_mc(MCINV['C02'])(tier) + race_mc(tier) + [
+        # negative control: a dry-run apply answered with 409 is retried as a real apply (seeded change, round 4) - at the design level
+        dict(name='handover-negctl-dryretry', instance='handover', budgets=(1, 0, 0), invariants=['Act_C02_RevisionMonotone'],
+             overrides=['DryConflictApplies <- MCTrue'], expect_violation='Act_C02_RevisionMonotone')], jobs=sched_jobs([
         ('handover-atomic', HANDOVER, 'handover', 'atomic', 160, 3000, 70)])),
     'C03': dict(level='model_checking', invariants=INV['C03'], assumptions=ASSUME, mc=design_mc(MCINV['C03']), jobs=sched_jobs([
         ('rollout-atomic', ROLLOUT + ',' + HANDOVER, 'rollout', 'atomic', 120, 2000, 70),
